@@ -45,7 +45,7 @@ class World:
         if name is None:
             return None
         if name not in self.assets:
-            self.assets[name] = types.SimpleNamespace(name=name)
+            self.assets[name] = types.SimpleNamespace(name=name, attack_step_nodes=[])     # generation records an asset's nodes on the asset
         return self.assets[name]
 
     # -- one operation; returns (outcome code, return value)
@@ -66,6 +66,8 @@ class World:
                                     tags=list(sp['tags']), extras=copy.deepcopy(sp['extras']))
                 # generation keeps the step's attribute dictionary on the node; its tags / ttc are the node's own objects
                 n.attributes = {'name': sp['name'], 'type': sp['type'], 'tags': n.tags, 'ttc': n.ttc}
+                if n.asset is not None:
+                    n.asset.attack_step_nodes = list(n.asset.attack_step_nodes) + [n]
                 self.nodes.append(n)
             elif k == 'add_node':
                 self.graph.add_node(self.nodes[op[1]], node_id=op[2])
@@ -78,8 +80,11 @@ class World:
             elif k == 'new_att':
                 self.atts.append(Attacker(name=op[1], entry_points=[], reached_attack_steps=[]))
             elif k == 'add_att':
-                self.graph.add_attacker(self.atts[op[1]], attacker_id=op[2],
-                                        entry_points=list(op[4]), reached_attack_steps=list(op[3]))
+                # empty lists are left to the defaults of add_attacker (the way attach_attackers calls it)
+                kw = {}
+                if op[4]: kw['entry_points'] = list(op[4])
+                if op[3]: kw['reached_attack_steps'] = list(op[3])
+                self.graph.add_attacker(self.atts[op[1]], attacker_id=op[2], **kw)
             elif k == 'remove_att':
                 self.graph.remove_attacker(self.atts[op[1]])
             elif k == 'compromise':
@@ -363,6 +368,10 @@ class Gen:
         entry = rng.sample(reached, rng.randrange(0, len(reached) + 1)) if reached else []
         if rng.random() < 0.1 and ids:
             entry = entry + [rng.choice(ids)]
+        if rng.random() < 0.2 and reached:
+            reached = reached + [rng.choice(reached)]          # a step named twice is compromised once
+        if rng.random() < 0.25:
+            reached = []                                        # entry points without reached steps
         self.do(('add_att', h, aid, reached, entry))
 
     def step(self):
